@@ -6,7 +6,7 @@ pid = sid.split('_')[0]
 src = "/tmp/seed_" + sid
 dst = os.path.join(os.path.dirname(os.path.dirname(os.path.abspath(__file__))), "seeded", sid)
 os.makedirs(dst, exist_ok=True)
-for f in ("patch.diff", "demo.py", "notes.md"):
+for f in ("patch.diff", "demo.py", "notes.md", "patch_on_fixed_tree.diff"):
     if os.path.exists(os.path.join(src, f)):
         shutil.copy(os.path.join(src, f), os.path.join(dst, f))
 confirm = open(os.path.join(src, "confirm.txt")).read() if os.path.exists(os.path.join(src, "confirm.txt")) else ""
